@@ -346,3 +346,149 @@ Proof.
            ++ apply I2.
            ++ apply I3.
 Qed.
+
+Lemma fclose_tasks_inv : forall func tids g l st ls T,
+  NoDup tids ->
+  (forall tid, In tid tids ->
+     frames_of (ft_stack (ft_get tid l)) = r_get tid st /\ ft_en (ft_get tid l) = fcount func (r_get tid st)
+     /\ (forall r, rel_path func (rpath (r_get tid st)) = Some r -> ft_path (ft_get tid l) = r /\ valid_at r (g_root g) = 1)
+     /\ stack_ok (ft_last (ft_get tid l)) (ft_stack (ft_get tid l)) /\ ft_last (ft_get tid l) = l_get tid ls /\ l_get tid ls < W64) ->
+  (forall q, time_at q (g_root g) = T q mod W64) ->
+  (forall q, time_at q (g_root (fclose_tasks func tids g l))
+             = (T q + timef func q (flat_map (fun tid => close_ref tid (l_get tid ls) (r_get tid st)) tids)) mod W64)
+  /\ (forall q, calls_at q (g_root (fclose_tasks func tids g l)) = calls_at q (g_root g)).
+Proof.
+  intros func. induction tids as [|tid r IH]; intros g l st ls T ND R HT.
+  - simpl. split; intros q; [rewrite HT, N.add_0_r|]; reflexivity.
+  - inversion ND as [|? ? Hnot ND']; subst.
+    destruct (R tid (or_introl eq_refl)) as [Hf [He [Hp [Hs [Hlast Hw]]]]].
+    simpl fclose_tasks.
+    assert (Hs0 : stack_ok_c (ft_last (ft_get tid l)) 0 (ft_stack (ft_get tid l))).
+    { destruct (ft_stack (ft_get tid l)) as [|f rest]; [exact I|]. simpl in *. destruct Hs. split; [lia|assumption]. }
+    assert (Hw0 : ft_last (ft_get tid l) < W64) by (rewrite Hlast; exact Hw).
+    destruct (fclose_frames_inv func tid (ft_last (ft_get tid l)) (ft_stack (ft_get tid l)) 0 (ft_path (ft_get tid l))
+                                (ft_en (ft_get tid l)) g T Hw0 Hs0) as [C1 [C2 C3]].
+    + rewrite Hf. exact He.
+    + rewrite Hf. intros r0 Hr0. destruct (Hp r0 Hr0) as [A B]. split; [exact A|exact B].
+    + exact HT.
+    + set (g1 := fclose_frames func (ft_last (ft_get tid l)) 0 (ft_stack (ft_get tid l)) (ft_path (ft_get tid l)) (ft_en (ft_get tid l)) g) in *.
+      destruct (IH g1 l st ls (fun q => T q + timef func q (close_ref tid (l_get tid ls) (r_get tid st))) ND') as [D1 D2].
+      * intros tid' Hin. destruct (R tid' (or_intror Hin)) as [Hf' [He' [Hp' [Hs' [Hlast' Hw']]]]].
+        repeat split; try assumption.
+        -- apply (Hp' r0 H).
+        -- apply C3. apply (Hp' r0 H).
+      * intros q. rewrite C1, Hf, Hlast. reflexivity.
+      * split; intros q.
+        -- rewrite D1. simpl flat_map. rewrite timef_app. f_equal. lia.
+        -- rewrite D2. apply C2.
+Qed.
+
+Lemma relf_init : forall func, relf func ({| g_root := root0 func; g_next := 1 |}, []) [] [].
+Proof.
+  intros func tid. unfold rel_ftask. simpl. repeat split; try reflexivity; try discriminate.
+Qed.
+
+(* `uftrace graph FUNC`: the node found by walking the name path q below the root (= FUNC) counts the calls
+   whose path, cut after the OUTERMOST FUNC on it, is q, and sums their durations; the root itself (q = []) counts
+   and times the outermost calls of FUNC *)
+Theorem graphf_sums : forall func tids s q, wf_stream s = true -> NoDup tids ->
+  calls_at q (graphf_build func tids s) = countf func q (ref_entries [] s)
+  /\ time_at q (graphf_build func tids s) = timef func q (ref_calls tids s) mod W64.
+Proof.
+  intros func tids s q Hwf ND. unfold wf_stream in Hwf. apply andb_prop in Hwf. destruct Hwf as [Hwf Hmono].
+  destruct (run_inv_f func s _ [] [] (fun _ => 0) (fun _ => 0) (relf_init func) Hwf Hmono) as [R [C T]].
+  { intros q'. apply stat_root0. reflexivity. }
+  { intros q'. simpl fst. simpl g_root. unfold time_at. rewrite stat_root0; reflexivity. }
+  unfold graphf_build.
+  destruct (fold_left (fstep func) s ({| g_root := root0 func; g_next := 1 |}, [])) as [g l] eqn:Efold.
+  simpl fst in *. simpl snd in *.
+  destruct (fclose_tasks_inv func tids g l _ _ _ ND (fun tid _ => R tid) T) as [D1 D2].
+  split.
+  - rewrite D2, C. reflexivity.
+  - rewrite D1. unfold ref_calls. destruct (ref_calls_run [] s) as [cs st']. simpl fst. simpl snd.
+    rewrite timef_app. f_equal. f_equal. f_equal.
+    apply flat_map_ext. intros tid. rewrite lasts_run_last_time. reflexivity.
+Qed.
+
+(* non-vacuity: main { f { g } f { f { g } } } , graph below f *)
+Example graphf_example :
+  let s := [(1, Ent [109] 10); (1, Ent [102] 20); (1, Ent [103] 30); (1, Ext [103] 40); (1, Ext [102] 50);
+            (1, Ent [102] 60); (1, Ent [102] 70); (1, Ent [103] 80)] in
+  wf_stream s = true
+  /\ graphf_rows (graphf_build [102] [1] s)
+     = Some [(0, [102], 2, Some (0, 50, 0)); (1, [103], 1, Some (0, 10, 0)); (1, [102], 1, Some (0, 10, 0)); (2, [103], 1, None)].
+Proof. vm_compute. split; reflexivity. Qed.
+
+(* ---- the printed rows ---- *)
+Require Import UV.C15.ProofsWalk UV.C15.ProofsOut.
+
+Lemma uniq_root_inc : forall g, uniq (g_root g) -> uniq (g_root (root_inc g)).
+Proof. intros g U. unfold root_inc. simpl. destruct (g_root g) as [i nm c t ct ks]. apply uniq_inv in U. destruct U. constructor; assumption. Qed.
+Lemma uniq_fstep : forall func m r, uniq (g_root (fst m)) -> uniq (g_root (fst (fstep func m r))).
+Proof.
+  intros func [g l] [tid [x t|x t]] U; unfold fstep; simpl fst in *.
+  - unfold f_entry. destruct (0 <? ft_en (ft_get tid l)); destruct (name_eqb x func); simpl fst;
+      try apply uniq_root_inc; try apply uniq_g_enter; exact U.
+  - destruct (ft_stack (ft_get tid l)); [exact U|]. unfold f_exit.
+    destruct (0 <? ft_en (ft_get tid l)); simpl fst; [apply uniq_g_exit|]; exact U.
+Qed.
+Lemma uniq_frun : forall func s m, uniq (g_root (fst m)) -> uniq (g_root (fst (fold_left (fstep func) s m))).
+Proof. intros func. induction s as [|r s IH]; intros m U; simpl; [exact U|]. apply IH, uniq_fstep, U. Qed.
+Lemma uniq_fclose_frames : forall func last st carry p en g, uniq (g_root g) -> uniq (g_root (fclose_frames func last carry st p en g)).
+Proof.
+  intros func last. induction st as [|f r IH]; intros carry p en g U; simpl; [exact U|].
+  destruct (last <? f_start f); [apply IH, U|]. unfold f_exit. destruct (0 <? en); apply IH; [apply uniq_g_exit|]; exact U.
+Qed.
+Lemma uniq_fclose_tasks : forall func tids g l, uniq (g_root g) -> uniq (g_root (fclose_tasks func tids g l)).
+Proof. intros func. induction tids as [|tid r IH]; intros g l U; simpl; [exact U|]. apply IH, uniq_fclose_frames, U. Qed.
+Theorem uniq_graphf_build : forall func tids s, uniq (graphf_build func tids s).
+Proof.
+  intros. unfold graphf_build.
+  pose proof (uniq_frun func s ({| g_root := root0 func; g_next := 1 |}, [])) as U.
+  destruct (fold_left (fstep func) s ({| g_root := root0 func; g_next := 1 |}, [])) as [g l].
+  apply uniq_fclose_tasks. apply U. simpl. constructor; constructor.
+Qed.
+
+Lemma countf_in : forall func q l, countf func q l <> 0 -> exists p, In p l /\ rel_path func p = Some q.
+Proof.
+  intros func q l. induction l as [|p l IH]; intros H; [contradiction H; reflexivity|].
+  rewrite countf_cons in H. destruct (opath_eqb q (rel_path func p)) eqn:E.
+  - exists p. split; [left; reflexivity|]. unfold opath_eqb in E. destruct (rel_path func p) as [r|]; [|discriminate].
+    apply path_eqb_eq in E. subst. reflexivity.
+  - destruct IH as [p' [Hin Hr]]; [lia|]. exists p'. split; [right; exact Hin|exact Hr].
+Qed.
+
+Section RowsF.
+  Variables (func : name) (tids : list N) (s : stream).
+  Hypothesis Hwf : wf_stream s = true.
+  Hypothesis Hnd : NoDup tids.
+  Let g := graphf_build func tids s.
+
+  (* every row below the FUNC line is a node of the aggregation relative to FUNC *)
+  Theorem graphf_walk_faithful : forall e, In e (walk_root g) ->
+    n_calls (w_node e) = countf func (w_path e) (ref_entries [] s)
+    /\ n_time (w_node e) = timef func (w_path e) (ref_calls tids s) mod W64
+    /\ n_name (w_node e) = last (w_path e) [].
+  Proof.
+    intros e He. apply (walk_root_spec g e (uniq_graphf_build func tids s)) in He. destruct He as [Hne [Hn _]].
+    destruct (graphf_sums func tids s (w_path e) Hwf Hnd) as [C T]. fold g in C, T.
+    unfold calls_at, time_at, stat in C, T. rewrite Hn in C, T. repeat split; try assumption.
+    apply (find_path_name _ _ _ Hn Hne).
+  Qed.
+  (* every relative path along which there is a call has its row *)
+  Theorem graphf_walk_complete : forall q, q <> [] -> countf func q (ref_entries [] s) <> 0 ->
+    exists e, In e (walk_root g) /\ w_path e = q.
+  Proof.
+    intros q Hne Hc. destruct (graphf_sums func tids s q Hwf Hnd) as [C _]. fold g in C.
+    assert (Hc' : calls_at q g <> 0) by (rewrite C; exact Hc).
+    destruct (stat_some n_calls q g Hc') as [m [Hm _]].
+    assert (Hpar : exists par, find_path (removelast q) g = Some par).
+    { rewrite (app_removelast_last [] Hne) in Hm. apply (valid_prefix _ _ _ _ Hm). }
+    destruct Hpar as [par Hpar]. exists (q, par, m). split; [|reflexivity].
+    apply (walk_root_spec g _ (uniq_graphf_build func tids s)). repeat split; assumption.
+  Qed.
+  (* the FUNC line itself *)
+  Theorem graphf_root : n_calls g = countf func [] (ref_entries [] s)
+                        /\ n_time g = timef func [] (ref_calls tids s) mod W64.
+  Proof. destruct (graphf_sums func tids s [] Hwf Hnd) as [C T]. exact (conj C T). Qed.
+End RowsF.
